@@ -1930,6 +1930,15 @@ package flags
 // no-ini are never written; map entries are written in the order of their
 // rendered keys (C15); string kinds are passed on so that writeOption can
 // quote (C12).
+// the kind that decides quoting: that of the value itself, found behind pointers (a *string is written like a string)
+//@ pure func baseKind(t reflect.Type) reflect.Kind = ite(t.Kind() == reflect.Ptr, baseKind(t.Elem()), t.Kind())
+//@ func iniValueKind(tp reflect.Type) (r reflect.Kind)
+//@   props C12 C04
+//@   pure
+//@   let t0 := tp
+//@   loop 1 invariant use(wf_type, tp) && unfold(baseKind(tp)) && baseKind(tp) == baseKind(t0)
+//@   loop 1 decreases tdepth(tp)
+//@   ensures[C12] unfold(baseKind(tp)) && r == baseKind(tp)
 //@ func writeGroupIni(cmd *Command, group *Group, namespace string, writer io.Writer, options IniOptions)
 //@   props C12 C15 C04
 //@   requires cmd != nil && group != nil
@@ -1939,11 +1948,11 @@ package flags
 //@   loop 3 decreases val.Len() - idx
 //@   loop 4 invariant !isnil(kkmap) && len(keys) == len(mkeys)
 //@   loop 5 invariant[C15] forall(a, 0, len(keys), forall(b, a, len(keys), keys[a] <= keys[b]))
-//@   at[C12] call writeOption #1: !option.Hidden && !option.isFunc() && len(option.tag.Get("no-ini")) == 0 && kind == option.value.Type().Elem().Kind()
-//@   at[C12] call writeOption #2: !option.Hidden && !option.isFunc() && len(option.tag.Get("no-ini")) == 0 && kind == option.value.Type().Elem().Kind()
-//@   at[C12] call writeOption #3: !option.Hidden && !option.isFunc() && len(option.tag.Get("no-ini")) == 0 && kind == option.value.Type().Elem().Kind()
-//@   at[C12] call writeOption #4: !option.Hidden && !option.isFunc() && len(option.tag.Get("no-ini")) == 0 && kind == option.value.Type().Elem().Kind()
-//@   at[C12] call writeOption #5: !option.Hidden && !option.isFunc() && len(option.tag.Get("no-ini")) == 0 && kind == option.value.Type().Kind()
+//@   at[C12] call writeOption #1: !option.Hidden && !option.isFunc() && len(option.tag.Get("no-ini")) == 0 && kind == baseKind(option.value.Type().Elem())
+//@   at[C12] call writeOption #2: !option.Hidden && !option.isFunc() && len(option.tag.Get("no-ini")) == 0 && kind == baseKind(option.value.Type().Elem())
+//@   at[C12] call writeOption #3: !option.Hidden && !option.isFunc() && len(option.tag.Get("no-ini")) == 0 && kind == baseKind(option.value.Type().Elem())
+//@   at[C12] call writeOption #4: !option.Hidden && !option.isFunc() && len(option.tag.Get("no-ini")) == 0 && kind == baseKind(option.value.Type().Elem())
+//@   at[C12] call writeOption #5: !option.Hidden && !option.isFunc() && len(option.tag.Get("no-ini")) == 0 && arg(2) == baseKind(option.value.Type())
 
 // Library facts (trusted): the strconv parsers invert the strconv formatters
 // for the same base, for values that fit the width.
